@@ -23,7 +23,11 @@ Blocks == <<"; a comment with ( and \"\n", "\n", "(def a1 1)\n", "(def a2\n  (+ 
             \* the name of the undefined symbol occurs (as data) in an earlier form
             "(def a5 '(undefined-sym\n  q))\n">>
 \* every text starts with the definition of a two-parameter function (for the arity fault)
-Prelude == "(def ff2 (fn [p q]\n  (list p q)))\n(defmacro mm2 (fn [p q]\n  p))\n"
+Prelude == "(def ff2 (fn [p q]\n  (list p q)))\n(defmacro mm2 (fn [p q]\n  p))\n" \o
+           \* values that are FORMS (a quoted symbol, a quoted list) written here and thrown elsewhere
+           "(def held-sym 'resource-missing)\n(def held-list\n  '(bad\n    thing))\n" \o
+           \* macros generating a let whose binding vector comes from a quasiquoted vector
+           "(defmacro mlet (fn [n v]\n  `(let [~n ~v]\n    ~n)))\n(defmacro mlet1 (fn [n]\n  `(let [~n]\n    1)))\n"
 Faults == <<[n |-> "undefined", t |-> "undefined-sym"], [n |-> "throw", t |-> "(throw \"boom\")"],
             [n |-> "builtin", t |-> "(nth [1] 5)"], [n |-> "assert", t |-> "(assert false \"failed\")"],
             [n |-> "thread-builtin", t |-> "(-> [1] (nth 5))"], [n |-> "thread-last-throw", t |-> "(->> \"boom\" (throw))"],
@@ -34,7 +38,10 @@ Faults == <<[n |-> "undefined", t |-> "undefined-sym"], [n |-> "throw", t |-> "(
             [n |-> "arity", t |-> "(ff2 1)"],
             \* ... reached through a builtin, and a macro called with too few operands: the faulty expression is that call
             [n |-> "arity-map", t |-> "(map ff2 [1])"], [n |-> "arity-apply", t |-> "(apply ff2 [1])"],
-            [n |-> "arity-macro", t |-> "(mm2 1)"]>>
+            [n |-> "arity-macro", t |-> "(mm2 1)"],
+            [n |-> "throw-held-symbol", t |-> "(throw held-sym)"], [n |-> "throw-held-list", t |-> "(throw held-list)"],
+            [n |-> "assert-held-list", t |-> "(assert false held-list)"],
+            [n |-> "generated-let-bad-name", t |-> "(mlet 5 1)"], [n |-> "generated-let-odd", t |-> "(mlet1 q)"]>>
 
 \* wrappers: d = definition form (earlier top-level form) or "", b/a = text before/after the fault,
 \* where = "call" if the fault sits in the calling form, "def" if it sits in the definition form
